@@ -56,6 +56,7 @@ type nodeView struct {
 	cr      int
 	lr      int
 	polkas  map[int]string // round -> recorded +2/3 prevote majority
+	rounds  map[int]bool   // rounds that have a vote set
 }
 
 func field(line, k string) string {
@@ -101,6 +102,7 @@ func parseNode(s string) (int, nodeView, bool) {
 	v.cr, _ = strconv.Atoi(field(s, "cr"))
 	v.lr, _ = strconv.Atoi(field(s, "lr"))
 	v.polkas = map[int]string{}
+	v.rounds = map[int]bool{}
 	for _, e := range strings.Split(field(s, "hv"), ",") {
 		// "<round>:P<sum>/<maj>/<buckets>:C…"
 		parts := strings.SplitN(e, ":", 3)
@@ -108,6 +110,9 @@ func parseNode(s string) (int, nodeView, bool) {
 			continue
 		}
 		q, err := strconv.Atoi(parts[0])
+		if err == nil {
+			v.rounds[q] = true
+		}
 		f := strings.Split(parts[1], "/")
 		if err == nil && len(f) >= 2 && f[1] != "-" {
 			v.polkas[q] = f[1]
@@ -352,7 +357,37 @@ func oracle(c core.Case, out []string) []core.Finding {
 				}
 			}
 		}
-		if bound >= 0 && endR > bound+1 && late != "" {
+		// a correct node still locked although ANOTHER correct node holds a releasing polka (for a round
+		// the locked node has reached) that the locked node has not recorded — after closure, i.e. with
+		// every vote and every majority claim handed over
+		gate, untracked := "", ""
+		for id, v := range views {
+			if v.decided != "" || v.halted || v.lb == "-" || v.lb == "" {
+				continue
+			}
+			for id2, v2 := range views {
+				if id2 == id || v2.halted {
+					continue
+				}
+				for q, val := range v2.polkas {
+					if _, has := v.polkas[q]; !has && v.lr < q && q <= v.r && val != v.lb {
+						d := fmt.Sprintf("node %d is locked on block %s since round %d and has not recorded the +2/3 prevotes for %s of round %d that node %d holds", id, v.lb, v.lr, val, q, id2)
+						if v.rounds[q] {
+							gate = d + " (it tracks that round: a conflicting vote was not admitted although a peer claimed the majority)"
+						} else {
+							untracked = d + " (it has no vote set for that round)"
+						}
+					}
+				}
+			}
+		}
+		if bound >= 0 && endR > bound+1 && late == "" && stale == "" && gate != "" {
+			add("sync.conflicting-vote-not-admitted.peer-maj23-claim-ignored",
+				fmt.Sprintf("all messages and majority claims delivered from round %d on, correct nodes reached round %d without deciding (bound was round %d): %s", syncR, endR, bound, gate))
+		} else if bound >= 0 && endR > bound+1 && late == "" && stale == "" && untracked != "" {
+			add("sync.releasing-polka-refused.round-not-tracked",
+				fmt.Sprintf("all messages delivered from round %d on, correct nodes reached round %d without deciding (bound was round %d): %s", syncR, endR, bound, untracked))
+		} else if bound >= 0 && endR > bound+1 && late != "" {
 			add("sync.lock-not-released-by-polka-of-reached-round",
 				fmt.Sprintf("all messages delivered from round %d on, correct nodes reached round %d without deciding (bound was round %d): %s", syncR, endR, bound, late))
 		} else if bound >= 0 && endR > bound+1 && stale != "" {
@@ -390,6 +425,8 @@ func main() {
 			c = genStaleLock(r)
 		case "skipover":
 			c = genSkipOverPolka(r)
+		case "pastclaim":
+			c = genEquivClaimPastRound(r)
 		default:
 			c = genRandom(r, 80, f[0] == "hostile")
 		}
@@ -417,6 +454,7 @@ func main() {
 				emit(genUnluckyOrder(r))
 				emit(genStaleLock(r))
 				emit(genSkipOverPolka(r))
+				emit(genEquivClaimPastRound(r))
 				emit(genRandom(r, 60, false))
 				emit(genRandom(r, 160, false))
 				emit(genRandom(r, 60, true))
@@ -432,7 +470,7 @@ func main() {
 			}
 			return false
 		},
-		Rule: "n real consensus.State nodes in one process (one per correct validator; kvstore app, MockPV signer, in-memory stores, nil WAL, recording ticker with the durations the node asked for; 3..7 validators from 7 power configurations plus skewed validator sets reached through validator updates; faulty validators with < 1/3 of the power, possibly none), driven synchronously through handleMsg/handleTimeout. Every case = adversarial asynchronous prefix, the synchrony point, a synchronous suffix (closure = every logged message and every majority claim to every correct node until nothing changes; then one eligible timeout — net closed, no other timer due more than skew earlier — or a move of a faulty validator; repeat). Prefixes: random (partitions re-drawn, per-message delays and re-deliveries, timeouts at any time, faulty validators equivocating in votes and proposals, voting for future rounds, withholding, bogus majority claims) and scripted: two correct nodes locked on different blocks from different rounds; a node that sees the commit (+2/3 precommits) without the block, optionally pulled out of the commit step by +2/3 prevotes of the next round; most of the power walking through rounds by timeouts while one node is cut off and then skips them at once (skewed sets); a node in the commit step without proposal receiving an equivocating proposer's proposal for another block before the committed block's parts; locks from different rounds with the releasing polka completed only after the locked node has moved to a later round (faulty validator silent afterwards); a faulty validator's equivocated round-0 precommit that the remaining nodes, already in round 1, can admit only through the decider's majority claim for the past round; a suffix with an unlucky delivery order every round (one node gets precommits before prevotes, or all votes before the proposal and its block, while a faulty validator helps the others to their polka and withholds its own block precommit so that every correct precommit is needed); a lock that outlives its releasing polka (the polka is completed at the locked node while it is still in an earlier round, then the node skips past that round); a multi-round skip over the round of the releasing polka, with every peer's catch-up rounds at the lagging node used up by stray votes first and the polka handed over only after the skip. Non-trivial = the case reached the synchrony point; distinct by hash of the op list",
+		Rule: "n real consensus.State nodes in one process (one per correct validator; kvstore app, MockPV signer, in-memory stores, nil WAL, recording ticker with the durations the node asked for; 3..7 validators from 7 power configurations plus skewed validator sets reached through validator updates; faulty validators with < 1/3 of the power, possibly none), driven synchronously through handleMsg/handleTimeout. Every case = adversarial asynchronous prefix, the synchrony point, a synchronous suffix (closure = every logged message and every majority claim to every correct node until nothing changes; then one eligible timeout — net closed, no other timer due more than skew earlier — or a move of a faulty validator; repeat). Prefixes: random (partitions re-drawn, per-message delays and re-deliveries, timeouts at any time, faulty validators equivocating in votes and proposals, voting for future rounds, withholding, bogus majority claims) and scripted: two correct nodes locked on different blocks from different rounds; a node that sees the commit (+2/3 precommits) without the block, optionally pulled out of the commit step by +2/3 prevotes of the next round; most of the power walking through rounds by timeouts while one node is cut off and then skips them at once (skewed sets); a node in the commit step without proposal receiving an equivocating proposer's proposal for another block before the committed block's parts; locks from different rounds with the releasing polka completed only after the locked node has moved to a later round (faulty validator silent afterwards); a faulty validator's equivocated round-0 precommit that the remaining nodes, already in round 1, can admit only through the decider's majority claim for the past round; a suffix with an unlucky delivery order every round (one node gets precommits before prevotes, or all votes before the proposal and its block, while a faulty validator helps the others to their polka and withholds its own block precommit so that every correct precommit is needed); a lock that outlives its releasing polka (the polka is completed at the locked node while it is still in an earlier round, then the node skips past that round); a multi-round skip over the round of the releasing polka, with every peer's catch-up rounds at the lagging node used up by stray votes first and the polka handed over only after the skip; an equivocating faulty validator whose second prevote completes a polka of a past round at a locked node and is admitted only through a peer's majority claim for that past round (delivered through the real Reactor.ReceiveEnvelope). Non-trivial = the case reached the synchrony point; distinct by hash of the op list",
 		Assumptions: []string{
 			"one height; a block id stands for (hash, part-set header) of a one-part block; block i is what createProposalBlock of validator i yields (checked at node construction); signatures ideal: correct nodes' messages are the objects they really signed, faulty validators' messages are signed by the harness with their keys",
 			"idealised gossip as in the property's quantifier: closure hands every logged message (proposals, block parts, votes of all rounds) and every +2/3 majority claim of every correct node to every correct node, repeatedly until no node changes; votes arrive from the peer of their signer (2 catch-up rounds per peer apply)",
